@@ -313,7 +313,7 @@ theorem agree_byParty {sO sA : Sig} {O O' A A' : Sem} (needs oOpt : Bool) (hO : 
   cases sO with | mk oseats oprev omax oext oneeds =>
   cases sA with | mk seats prev max ext aneeds =>
   simp at hsa hp hm; subst hsa; subst hp; subst hm
-  simp only [byPartyImpl, byPartyLaw, hO.byHand, hA.byHand]
+  simp only [byPartyImpl, byPartyLaw, partyAllocation, enterAllocation, fillEmpty, hO.byHand, hA.byHand]
   cases oseats
   · simp [Args.restrict, allSig, Args.noExt]
   · have := hopt rfl
@@ -335,7 +335,7 @@ theorem byParty_eq_of_columns {sO sA : Sig} {O O' A A' : Sem} (needs oOpt : Bool
     ⟨fun k => Classical.choose (hp k), fun k => Classical.choose_spec (hp k)⟩
   obtain ⟨g, hg⟩ : ∃ g : Key → V, ∀ k, partyColumn (a.max.getD (.dict [])) k = .ok (g k) :=
     ⟨fun k => Classical.choose (hm k), fun k => Classical.choose_spec (hm k)⟩
-  simp only [byPartyImpl, byPartyLaw, hO.byHand, hA.byHand]
+  simp only [byPartyImpl, byPartyLaw, partyAllocation, enterAllocation, fillEmpty, hO.byHand, hA.byHand]
   cases oseats
   · cases prev <;> cases max <;> simp [Args.restrict, allSig, Args.noExt, hf, hg]
   · have := hopt rfl
